@@ -509,7 +509,39 @@ def check_separators(run, rule, f, cfg, select=None):
                     _check_loop_paths(run, rule, f, cfg, name, short, "for loop", flag, lp["paths"], sinks, lp["n"].get("sp"),
                                       new_flag=lambda p, flag=flag: _assigned_flag(p, flag))
                     nloops += 1
+        # head / tail lists: `if let Some((head, tail)) = xs.split_first() { ELEM(head); for x in tail { SEP; ELEM(x) } }`
+        for sink in [s_ for s_, k_ in t.sinks.items() if k_ == "writer"]:
+            for node in _tir_nodes(T.project(t.effects, sink)):
+                if node[0] == "alt":
+                    sf = _split_first_list(node)
+                    if sf is not None:
+                        run.ob(rule, "separator:%s:split_first:%s" % (name, sf[2]["over"]), True,
+                               "%s: head/tail list over %s: the separator is written before every element but the first, and the first is "
+                               "written the same way as the others" % (short, sf[2]["over"]), sp=sf[2].get("sp"), cfg=cfg)
+                        nloops += 1
     return nloops
+
+
+def _tir_nodes(S):
+    if not isinstance(S, tuple) or not S:
+        return
+    yield S
+    k = S[0]
+    if k == "seq":
+        for x in S[1]:
+            yield from _tir_nodes(x)
+    elif k == "alt":
+        for g, x in S[1]:
+            yield from _tir_nodes(x)
+    elif k in ("loop", "star", "star1"):
+        yield from _tir_nodes(S[1])
+    elif k == "sepby":
+        yield from _tir_nodes(S[1])
+        yield from _tir_nodes(S[2])
+    elif k == "sepchain":
+        for b, sp in S[1]:
+            yield from _tir_nodes(b)
+            yield from _tir_nodes(sp)
 
 
 def _for_element(f, loop_node):
@@ -773,6 +805,50 @@ SEP_GUARD = re.compile(r"^!\w*first\w*$|^\w+ (!=|>) 0$|^!\w*first\w* &&|^!is_fir
 SEP_GUARD_STRICT = re.compile(r"^!\w*first\w*$|^\w+ (!=|>) 0$|^!is_first$")
 
 
+def _split_first_list(S):
+    """`if let Some((head, tail)) = xs.split_first() { ELEM(head); for x in tail { SEP; ELEM(x) } }`  ->  (ELEM, SEP, info)"""
+    if len(S[1]) != 2:
+        return None
+    arms = {g.get("taken"): (g, b) for g, b in S[1] if isinstance(g, dict)}
+    if True not in arms or False not in arms:
+        return None
+    g, b = arms[True]
+    if [x for x in T.flat(arms[False][1]) if x != ("seq", [])]:
+        return None
+    e = g.get("e")
+    if not (isinstance(e, dict) and e.get("k") == "let"):
+        return None
+    init = H.peel_ref(e.get("init") or {})
+    pat = e.get("pat") or {}
+    if not (init.get("k") == "mcall" and init.get("name") == "split_first" and pat.get("k") == "variant" and len(pat.get("subs") or []) == 1):
+        return None
+    tp = pat["subs"][0]
+    if not (tp.get("k") == "tuple" and len(tp["subs"]) == 2 and all(x.get("k") == "bind" for x in tp["subs"])):
+        return None
+    head, tail = tp["subs"][0]["name"], tp["subs"][1]["name"]
+    items = [x for x in T.flat(b) if x != ("seq", [])]
+    if len(items) < 2 or items[-1][0] not in ("loop", "star", "star1") or len(items[-1]) < 3 or not isinstance(items[-1][2], dict):
+        return None
+    info = items[-1][2]
+    if (info.get("over") or "").strip() not in (tail, tail + ".iter()"):
+        return None
+    binds = [n["name"] for n in walk(info.get("pat") or {}) if n.get("k") == "bind"]
+    if len(binds) != 1:
+        return None
+    litems = [x for x in T.flat(items[-1][1]) if x != ("seq", [])]
+    nsep = 0
+    while nsep < len(litems) and litems[nsep][0] == "lit":
+        nsep += 1
+    if nsep == 0 or nsep == len(litems):
+        return None
+    first = re.sub(r"\b%s\b" % re.escape(head), "@", T.show(("seq", items[:-1])))
+    rest = re.sub(r"\b%s\b" % re.escape(binds[0]), "@", T.show(("seq", litems[nsep:])))
+    if first != rest:
+        return None
+    recv = init.get("recv")
+    return ("seq", litems[nsep:]), ("seq", litems[:nsep]), {"kind": "split_first", "over": T.text(recv) if isinstance(recv, dict) else "", "e": recv, "sp": e.get("sp")}
+
+
 def sepify(S, strict=False):
     """rewrite loops of the form  { (SEP | ) BODY }*  whose first element is a separator written under a first-flag /
     index guard into  sepby(BODY, SEP)"""
@@ -780,6 +856,9 @@ def sepify(S, strict=False):
     if k == "seq":
         return ("seq", [sepify(x, strict) for x in S[1]])
     if k == "alt":
+        sf = _split_first_list(S)
+        if sf is not None:
+            return ("sepby", sepify(sf[0], strict), sf[1], sf[2])
         return ("alt", [(g, sepify(x, strict)) for g, x in S[1]])
     if k in ("loop", "star", "star1"):
         body = S[1]
